@@ -225,15 +225,56 @@ def run_pipeline(name, binp, opsfile, workdir, tag, timeout=None):
     """ops -> real, model, mon.  Returns dict of paths + errors."""
     st = STREAMS[name]
     if timeout is None:
-        timeout = 3000 if os.environ.get('VERIF_TIER_EFFECTIVE') == 'thorough' else 600
+        timeout = 3000 if os.environ.get('VERIF_TIER_EFFECTIVE') == 'thorough' else 300
     try:
         return _run_pipeline(name, binp, opsfile, workdir, tag, timeout)
     except subprocess.TimeoutExpired as e:
-        for fn in ('real', 'model', 'mon'):
-            open(os.path.join(workdir, f'{tag}.{fn}.txt'), 'a').close()
-        return dict(real=os.path.join(workdir, f'{tag}.real.txt'), model=os.path.join(workdir, f'{tag}.model.txt'),
-                    mon=os.path.join(workdir, f'{tag}.mon.txt'),
-                    errors=[f'timed out after {timeout}s: the implementation (or the model) hangs on this input'])
+        return _run_cases_separately(name, binp, opsfile, workdir, tag, timeout)
+
+
+# properties that speak about progress: an input on which the implementation never answers is a failing input for them
+HANG_PROPS = ('C12', 'C14', 'C16', 'C18')
+
+
+def _run_cases_separately(name, binp, opsfile, workdir, tag, timeout):
+    """The run as a whole timed out: find the input.  Every case is re-run alone (a case that needed state leaked by an
+    earlier case of the run is lost that way; the time-out itself stays reported).  A case that does not finish alone
+    is a concrete input on which the implementation (or the model) hangs."""
+    paths = {fn: os.path.join(workdir, f'{tag}.{fn}.txt') for fn in ('real', 'model', 'mon')}
+    res = dict(errors=[f'timed out after {timeout}s: the implementation (or the model) hangs or stalls on an input of this run'], **paths)
+    chunks, cur = [], None
+    for line in open(opsfile):
+        line = line.rstrip('\n')
+        if line.startswith('case '):
+            cur = [line]
+            chunks.append(cur)
+        elif cur is not None:
+            cur.append(line)
+    per_case = 60 if timeout <= 600 else 180
+
+    def one(i):
+        ch = chunks[i]
+        f = os.path.join(workdir, f'{tag}.c{i}.ops.txt')
+        open(f, 'w').write('\n'.join(ch) + '\n')
+        try:
+            r = _run_pipeline(name, binp, f, workdir, f'{tag}.c{i}', per_case)
+            return [open(r[k]).read() for k in ('real', 'model', 'mon')], None
+        except subprocess.TimeoutExpired:
+            echo = ''.join('> ' + l + '\n' for l in ch)
+            cid = ch[0].split()[1]
+            mon = ''.join(f'FAIL prop={p} reason=implementation-hangs-or-stalls-on-this-input case={cid} block=0\n' for p in HANG_PROPS)
+            return [echo, echo, mon], f'case {cid} alone: no answer within {per_case}s'
+    with ThreadPoolExecutor(max_workers=8) as ex:
+        outs = list(ex.map(one, range(len(chunks))))
+    for k, fn in enumerate(('real', 'model', 'mon')):
+        with open(paths[fn], 'w') as fo:
+            for o, _ in outs:
+                fo.write(o[k])
+    res['errors'] += [e for _, e in outs if e]
+    for f in glob.glob(os.path.join(workdir, f'{tag}.c*.*')):
+        if os.path.isfile(f):
+            os.unlink(f)
+    return res
 
 
 def _run_pipeline(name, binp, opsfile, workdir, tag, timeout):
